@@ -27,6 +27,14 @@ GenTypeEncsQuick == {<<"image", "raw">>, <<"segmentation", "compressed_segmentat
 GenShardings == {"nosh", "s110"}
 GenCodes == {"RPI", "LIP"}
 GenCodesQuick == {"RPI"}
+GenNone == {}
+GenMeshDirs == {"m1", "m2"}
+GenMeshNames == {"f1", "f2"}
+GenMeshNamesQuick == {"f1"}
+GenTables == {"t1", "t2"}
+GenTablesQuick == {"t2"}
+GenMeshTypeEncs == {<<"segmentation", "raw">>}
+GenOneMethod == {"auto"}
 GenCfg == {[perfect |-> TRUE, nall |-> 3]}
 
 Cs(c) == c.op \o "|" \o c.d \o "|" \o c.src \o "|" \o c.type \o "|" \o c.enc \o "|"
@@ -45,6 +53,14 @@ Class(c, D) == IF c.op = "Convert" THEN ShOf(D[c.src]) \o ShOf(D[c.d]) \o c.copy
                ELSE IF c.op = "AllInOne"
                     THEN (IF D[c.d].chunks[1] = "absent" THEN "e" ELSE "f")
                \* generate-scales-info: the destination has ("i") / has no ("n") info afterwards
+               \* mesh commands: storage class, then the mesh key of the info AFTER the command
+               \* ("k" the directory the command names, "x" another one, "0" none)
+               ELSE IF c.op = "Mesh"
+                    THEN ShOf(D[c.d]) \o (IF D[c.d].info.mesh = c.m THEN "k"
+                                           ELSE IF D[c.d].info.mesh = "none" THEN "0" ELSE "x")
+               ELSE IF c.op = "Link"
+                    THEN ShOf(D[c.d]) \o (IF D[c.d].info.mesh = "none" THEN "0" ELSE "k")
+                                       \o (IF D[c.d].frags = {} THEN "e" ELSE "f")
                ELSE IF c.op = "GenScales" THEN (IF D[c.d].info.n # 0 THEN "i" ELSE "n")
                ELSE "-"
 
